@@ -24,6 +24,20 @@ PROPS = ["C%02d" % i for i in range(1, 21)]
 MC_MODELS = {}   # filled by mcmodels.py (property -> list of model descriptions)
 
 
+EXPECTED_TRACE_OPS = {
+    "C01": ["add", "sub", "mul"], "C02": ["div", "rem", "div_rem"], "C03": ["resize", "push", "append", "to_vec", "fmt", "hash", "eq", "add", "or"],
+    "C04": ["and", "or", "xor", "not"], "C05": ["shl", "shr", "shl_in", "shr_in"], "C06": ["rotl", "rotr"],
+    "C07": ["push", "pop", "set", "resize", "truncate", "sign_extend", "append", "prepend", "insert", "extend", "collect"],
+    "C08": ["copy_range", "split_off", "split", "first", "last"], "C09": ["eq", "ne", "lt", "le", "gt", "ge", "pcmp", "cmp"],
+    "C10": ["hash", "hs_contains"], "C11": ["from_int", "to_int", "from_slice", "bit_from_int", "bit_to_int"],
+    "C12": ["convert", "new_inner"], "C13": ["to_vec", "write", "from_bytes", "read"], "C14": ["fmt"],
+    "C15": ["from_binary", "from_hex"], "C16": ["leading_zeros", "leading_ones", "trailing_zeros", "trailing_ones", "significant_bits", "is_zero"],
+    "C17": ["it_new", "it_next", "it_next_back", "it_nth", "it_nth_back", "it_size_hint", "it_count", "it_last", "it_rev"],
+    "C18": ["reserve", "shrink_to_fit", "resize", "push", "append"], "C19": ["push", "resize", "append", "prepend", "insert", "extend", "collect", "zeros", "ones", "from_bytes", "from_binary", "from_hex", "read", "convert"],
+    "C20": ["add", "sub", "mul", "div", "rem", "and", "or", "xor", "shl", "shr", "not"],
+}
+
+
 class ToolError(Exception):
     pass
 
@@ -221,6 +235,10 @@ def drive_and_validate(prop, tier, seed, bins, workdir, shards, tlc_timeout):
     t0 = time.time()
     validate_jobs(jobs, res, tlc_timeout)
     log("[tlc] %s: %d shards validated in %.1fs" % (prop, res["shards"], time.time() - t0))
+    # vacuity control: the operations the property is about must occur in the validated traces
+    missing = [o for o in EXPECTED_TRACE_OPS.get(prop, []) if res.get("trace_ops", {}).get(o, 0) == 0]
+    if missing and res["profiles"]:
+        res["tool_errors"].append("vacuity: the validated traces of %s never contain %s" % (prop, ", ".join(missing)))
     return res
 
 
@@ -237,7 +255,10 @@ def validate_jobs(jobs, res, tlc_timeout):
             lines = read_lines(s)
             for ln in lines[1:]:
                 try:
-                    k = nontrivial_key(json.loads(ln))
+                    evj = json.loads(ln)
+                    k = nontrivial_key(evj)
+                    ops = res.setdefault("trace_ops", {})
+                    ops[evj.get("op")] = ops.get(evj.get("op"), 0) + 1
                 except Exception:
                     k = None
                 if k:
@@ -370,6 +391,7 @@ def main(argv):
             "trace_shards": dv["shards"], "impl_executions": dv["execs"],
             "spec_transitions_replayed": mc.get("replayed", 0), "replay_executions": mc.get("replay_execs", 0),
             "per_profile": dv["profiles"], "executions_by_operation": dv["by_op"], "executions_by_kind": dv["by_kind"],
+            "validated_events_by_operation": dv.get("trace_ops", {}),
             "known_findings_hit": known_hits,
             "checker_cmd": "bin/check %s --tier %s" % (prop, tier),
         },
